@@ -315,7 +315,7 @@ pub fn wkt(g: &G) -> String {
         v.iter().map(|c| format!("{} {}", c.0, c.1)).collect::<Vec<_>>().join(",")
     }
     fn po(p: &Poly) -> String {
-        if p.ext.is_empty() {
+        if p.ext.is_empty() && p.holes.is_empty() {
             return "EMPTY".into();
         }
         let mut s = format!("(({})", cs(&p.ext));
